@@ -444,14 +444,42 @@ func executeEnv(c *an.Ctx, rule1, rule2 string) {
 	hf := ex // the function that builds the map
 	unique := true
 	why := ""
-	for _, src := range p.DeepSources(arg, 3, site.Parent() != ex) {
+	// (a helper of the module that returns ConvertEnv(<map it built>) on every path is looked through, wherever it lives)
+	var srcsOf func(v ssa.Value, interproc bool, depth int) []ssa.Value
+	srcsOf = func(v ssa.Value, interproc bool, depth int) []ssa.Value {
+		var out []ssa.Value
+		if call, ok := an.Resolve(v).(*ssa.Call); ok {
+			if isEnvConverterCall(p, call) {
+				return []ssa.Value{call}
+			}
+		}
+		for _, src := range p.DeepSources(v, 3, interproc) {
+			call, ok := src.(*ssa.Call)
+			if ok && depth < 3 {
+				if !isEnvConverterCall(p, call) {
+					if callee := call.Call.StaticCallee(); callee != nil && an.InModule(callee) && callee.Blocks != nil && callee.Signature.Results().Len() == 1 {
+						rets := an.Returns(callee)
+						for _, ret := range rets {
+							out = append(out, srcsOf(an.RetVal(ret, 0), false, depth+1)...)
+						}
+						if len(rets) > 0 {
+							continue
+						}
+					}
+				}
+			}
+			out = append(out, src)
+		}
+		return out
+	}
+	for _, src := range srcsOf(arg, site.Parent() != ex, 0) {
 		call, ok := src.(*ssa.Call)
 		if !ok {
 			unique = false
 			why = an.Prov(src)
 			continue
 		}
-		if _, ok := an.IsCallTo(call, "pkg/utils.ConvertEnv"); ok {
+		if isEnvConverterCall(p, call) {
 			if m != nil {
 				unique = false
 				why = "more than one ConvertEnv result"
@@ -469,7 +497,11 @@ func executeEnv(c *an.Ctx, rule1, rule2 string) {
 	}
 	c.OK(rule2, an.Short(ex)+":ListEnviron(arg)", site.Pos(), "the list is ConvertEnv of one map: names are unique")
 	// ConvertEnv itself: ranges over its map parameter, one entry per key
-	if ce := p.Func("pkg/utils", "", "ConvertEnv"); ce != nil {
+	ce := p.Func("pkg/utils", "", "ConvertEnv")
+	if conv := envConverterOf(p, site.Parent(), arg); conv != nil {
+		ce = conv
+	}
+	if ce != nil {
 		okCE := false
 		for _, l := range an.Loops(ce) {
 			if op := l.RangeOperand(); op != nil && an.SameValue(op, ce.Params[0]) {
@@ -477,11 +509,43 @@ func executeEnv(c *an.Ctx, rule1, rule2 string) {
 			}
 		}
 		c.Check(okCE, rule2, an.Short(ce)+":one-per-key", ce.Pos(), "ConvertEnv emits one entry per map key", "ConvertEnv does not range over its map")
+		// … for every key: no pass of the loop goes on to the next key without emitting an entry (a filter on names
+		// here drops inherited variables that nothing overrides)
+		for _, l := range an.Loops(ce) {
+			if op := l.RangeOperand(); op == nil || !an.SameValue(op, ce.Params[0]) || l.BodyEntry() == nil {
+				continue
+			}
+			exl := &an.Explorer{P: p, NoReturn: noReturn, MaxDepth: 2}
+			l.Bound(exl)
+			exl.Effect = func(in ssa.Instruction, st *an.State) string {
+				if call, ok := in.(*ssa.Call); ok {
+					if b, ok := call.Call.Value.(*ssa.Builtin); ok && b.Name() == "append" {
+						return "emit"
+					}
+				}
+				if st2, ok := in.(*ssa.Store); ok {
+					if _, isIdx := st2.Addr.(*ssa.IndexAddr); isIdx {
+						if _, isStr := st2.Val.Type().Underlying().(*types.Basic); isStr {
+							return "emit"
+						}
+					}
+				}
+				return ""
+			}
+			outs := exl.Run(ce, l.BodyEntry(), l.Header, nil)
+			every := len(outs) > 0 && !exl.Exhausted
+			for _, o := range outs {
+				if o.End == "stop" && o.StopBlock == l.Header && count(o.Effects, "emit") < 1 {
+					every = false
+				}
+			}
+			c.Check(every, rule2, an.Short(ce)+":every-key", ce.Pos(), "every key of the map yields an entry", an.Short(ce)+" can pass over a key of the map without emitting an entry for it: a variable of the merged environment (an inherited one with an unusual name, say) silently disappears from what the command gets")
+		}
 	}
 	// layers of the map: the map is made during this Execute call (by Execute or a
 	// helper of the package under it), and written first from the process
 	// environment, then from the job's env; the writes may sit in helpers
-	reach := p.Reach([]*ssa.Function{ex}, func(e an.CallEdge) bool { return e.Kind != an.EdgeGo && an.Outer(e.Callee).Pkg == ex.Pkg })
+	reach := p.Reach([]*ssa.Function{ex}, func(e an.CallEdge) bool { return e.Kind != an.EdgeGo && an.InModule(e.Callee) })
 	mapOf := func(v ssa.Value) *ssa.MakeMap {
 		if mk, ok := an.Resolve(v).(*ssa.MakeMap); ok {
 			return mk
@@ -496,6 +560,7 @@ func executeEnv(c *an.Ctx, rule1, rule2 string) {
 		}
 		return found
 	}
+	noEnvRemoval(c, rule1)
 	mm := mapOf(m)
 	_ = hf
 	if mm == nil {
@@ -631,10 +696,10 @@ func executeEnv(c *an.Ctx, rule1, rule2 string) {
 				return
 			}
 			for _, callee := range p.Callees(&call.Call) {
-				if an.Outer(callee).Pkg != ex.Pkg {
+				if !an.InModule(callee) {
 					continue
 				}
-				sub := p.Reach([]*ssa.Function{callee}, func(e an.CallEdge) bool { return e.Kind != an.EdgeGo && an.Outer(e.Callee).Pkg == ex.Pkg })
+				sub := p.Reach([]*ssa.Function{callee}, func(e an.CallEdge) bool { return e.Kind != an.EdgeGo && an.InModule(e.Callee) })
 				if _, has := sub[l.fn]; has {
 					idx := 0
 					for i, x := range call.Block().Instrs {
@@ -1458,5 +1523,136 @@ func wholeValues(c *an.Ctx, rule string) {
 	}
 	if !bad {
 		c.OK(rule, "environment path:whole values", roots[0].Pos(), "no NAME=value entry is split at every '=' on the way into a command's environment (%d functions, %d splits at '=')", len(reach), n)
+	}
+}
+
+// An "environment converter" is a function of the module from map[string]string to []string that ranges over its
+// map (utils.ConvertEnv today); a function that only forwards to one (its result is the result of one call of a
+// converter on its own parameter) is one too. Where the converter lives does not matter.
+func isEnvConverter(p *an.Prog, fn *ssa.Function, depth int) bool {
+	if fn == nil || fn.Blocks == nil || !an.InModule(fn) || depth > 2 {
+		return false
+	}
+	sig := fn.Signature
+	if sig.Recv() != nil || sig.Params().Len() != 1 || sig.Results().Len() != 1 {
+		return false
+	}
+	if sig.Params().At(0).Type().String() != "map[string]string" || sig.Results().At(0).Type().String() != "[]string" {
+		return false
+	}
+	for _, l := range an.Loops(fn) {
+		if op := l.RangeOperand(); op != nil && an.SameValue(op, fn.Params[0]) {
+			return true
+		}
+	}
+	// a forwarder
+	for _, ret := range an.Returns(fn) {
+		call, ok := an.Resolve(an.RetVal(ret, 0)).(*ssa.Call)
+		if !ok || len(call.Call.Args) != 1 || !an.SameValue(call.Call.Args[0], fn.Params[0]) || !isEnvConverter(p, call.Call.StaticCallee(), depth+1) {
+			return false
+		}
+	}
+	return len(an.Returns(fn)) > 0
+}
+
+func isEnvConverterCall(p *an.Prog, call *ssa.Call) bool {
+	return isEnvConverter(p, call.Call.StaticCallee(), 0)
+}
+
+// envConverterOf: the converter (behind forwarders) whose result reaches v in fn.
+func envConverterOf(p *an.Prog, fn *ssa.Function, v ssa.Value) *ssa.Function {
+	var found *ssa.Function
+	var walk func(v ssa.Value, depth int)
+	walk = func(v ssa.Value, depth int) {
+		if depth > 3 {
+			return
+		}
+		for _, src := range p.DeepSources(v, 3, true) {
+			call, ok := src.(*ssa.Call)
+			if !ok {
+				continue
+			}
+			callee := call.Call.StaticCallee()
+			if isEnvConverter(p, callee, 0) {
+				for hop := 0; hop < 3; hop++ {
+					ranges := false
+					for _, l := range an.Loops(callee) {
+						if op := l.RangeOperand(); op != nil && an.SameValue(op, callee.Params[0]) {
+							ranges = true
+						}
+					}
+					if ranges {
+						break
+					}
+					next := (*ssa.Function)(nil)
+					for _, ret := range an.Returns(callee) {
+						if c2, ok := an.Resolve(an.RetVal(ret, 0)).(*ssa.Call); ok {
+							next = c2.Call.StaticCallee()
+						}
+					}
+					if next == nil {
+						break
+					}
+					callee = next
+				}
+				found = callee
+				continue
+			}
+			if callee != nil && an.InModule(callee) && callee.Blocks != nil {
+				for _, ret := range an.Returns(callee) {
+					walk(an.RetVal(ret, 0), depth+1)
+				}
+			}
+		}
+	}
+	walk(v, 0)
+	return found
+}
+
+// noEnvRemoval: between filling the environment map of a command and converting it to the list the interpreter
+// gets, nothing is taken out of it again. Every variable of the layered environment — the captured output of an
+// earlier task among them, however long — reaches the command.
+func noEnvRemoval(c *an.Ctx, rule string) {
+	p := c.P
+	ex := p.Func("pkg/executor", "DefaultExecutor", "Execute")
+	if ex == nil {
+		return
+	}
+	n := 0
+	for fn := range p.Reach([]*ssa.Function{ex}, func(e an.CallEdge) bool { return e.Kind != an.EdgeGo && an.InModule(e.Callee) }) {
+		if fn.Blocks == nil {
+			continue
+		}
+		// the maps of this function that are handed to an environment converter
+		converted := map[ssa.Value]bool{}
+		an.EachInstr(fn, func(in ssa.Instruction) {
+			if call, ok := in.(*ssa.Call); ok && isEnvConverterCall(p, call) {
+				for _, src := range an.Sources(call.Call.Args[0]) {
+					converted[src] = true
+				}
+			}
+		})
+		if len(converted) == 0 {
+			continue
+		}
+		an.EachInstr(fn, func(in ssa.Instruction) {
+			call, ok := in.(*ssa.Call)
+			if !ok {
+				return
+			}
+			b, ok := call.Call.Value.(*ssa.Builtin)
+			if !ok || b.Name() != "delete" {
+				return
+			}
+			for _, src := range an.Sources(call.Call.Args[0]) {
+				if converted[src] {
+					n++
+					c.Bad(rule, an.Short(fn)+":delete(env)", call.Pos(), "%s removes entries from the environment map it has just filled, before the interpreter gets it: a variable of the layered environment (a long captured output, a value that fails some check) silently does not reach the command", an.Short(fn))
+				}
+			}
+		})
+	}
+	if n == 0 {
+		c.OK(rule, "executor:env-complete", token.NoPos, "nothing is deleted from a command's environment map before it is converted for the interpreter")
 	}
 }
